@@ -442,8 +442,10 @@ func checkTablesFrozen(e *Env, p *load.Program, pkgPath, rule string) {
 					continue // the initialiser itself (a literal is built in a fresh value, but `x.f = ...` forms may appear)
 				}
 				n++
-				r.Bad(rule, g.Name()+"/written-in/"+load.FuncName(f), p.Pos(in.Pos()),
-					fmt.Sprintf("%s the package-level table %s in %s: the table no longer has the value of its initialiser, and whatever was derived from it at initialisation (an inverted table, an alias map) does not see the change", what, g.Name(), load.FuncName(f)))
+				// undecided rather than violated: the rules read the tables as literals, so a table that is written later is
+				// outside what they can vouch for; whether the write breaks the property depends on what it stores
+				r.Unknown(rule, g.Name()+"/written-in/"+load.FuncName(f), p.Pos(in.Pos()),
+					fmt.Sprintf("%s the package-level table %s in %s: the table no longer has the value of its initialiser (which is what the rules compare with the oracle), and whatever was derived from it at initialisation (an inverted table, an alias map) does not see the change", what, g.Name(), load.FuncName(f)))
 			}
 		}
 	}
